@@ -65,6 +65,9 @@ type Case struct {
 	JSON bool `json:"json,omitempty"`
 	// JSONBufLen: the JSONBufferLen setting (initial size of the per-record buffer; 0 = default)
 	JSONBufLen int `json:"json_buf_len,omitempty"`
+	// Verbosity: the process-wide log verbosity while the case runs (output discarded): logging must
+	// not change what is sent
+	Verbosity int `json:"verbosity,omitempty"`
 }
 
 var (
@@ -143,6 +146,10 @@ func runRetry(c Case, st *Stats) *ev.Failure {
 func runCase(c Case, st *Stats) *ev.Failure {
 	if st == nil {
 		st = &Stats{}
+	}
+	if c.Verbosity > 0 {
+		glue.SetKlogVerbosity(c.Verbosity)
+		defer glue.SetKlogVerbosity(0)
 	}
 	peer, err := exph.NewPeer(c.Proto, false)
 	if err != nil {
@@ -601,6 +608,10 @@ func runJSON(c Case, st *Stats) *ev.Failure {
 	if st == nil {
 		st = &Stats{}
 	}
+	if c.Verbosity > 0 {
+		glue.SetKlogVerbosity(c.Verbosity)
+		defer glue.SetKlogVerbosity(0)
+	}
 	peer, err := exph.NewPeer("tcp", false)
 	if err != nil {
 		return nil
@@ -786,6 +797,7 @@ func runJSON(c Case, st *Stats) *ev.Failure {
 
 func genJSONCase(t *rapid.T) Case {
 	c := Case{Proto: "tcp", JSON: true, JSONBufLen: rapid.SampledFrom([]int{0, 0, 1, 64, 100000, -5}).Draw(t, "json_buf_len")}
+	c.Verbosity = rapid.SampledFrom([]int{0, 0, 2, 10}).Draw(t, "verbosity")
 	var jp []ref.Field
 	for _, f := range pool {
 		if jsonOK(f) {
@@ -897,6 +909,7 @@ var ills = []string{"v6_in_ipv4", "nil_in_ipv4", "5bytes_in_ipv6", "nil_in_ipv6"
 
 func genCase(t *rapid.T) Case {
 	c := Case{Proto: rapid.SampledFrom([]string{"tcp", "udp"}).Draw(t, "proto")}
+	c.Verbosity = rapid.SampledFrom([]int{0, 0, 0, 2, 10}).Draw(t, "verbosity")
 	n := rapid.IntRange(1, 10).Draw(t, "n")
 	ntpl := 0
 	nextID := uint16(256)
